@@ -35,7 +35,7 @@ Norm(acc, rest) ==
 (* universe; any other first segment containing a scheme or host ("http://h", "//h") is a       *)
 (* location outside it.                                                                         *)
 LocalAbs == {"<T>", "file://<T>"}
-RemoteAbs == {"http://h.example", "https://h.example", "//h.example"}
+RemoteAbs == {"http://h.example", "https://h.example", "//h.example", "//h.example<T>", "https://h.example<T>"}
 IsRemote(f) == f # <<>> /\ f[1] \in RemoteAbs
 
 (* the file a ref found in file f points into *)
